@@ -48,13 +48,24 @@ impl PatternNode {
   }
 
   pub fn fixed_string(&self) -> Cow<str> {
+    self.fixed_string_impl(false)
+  }
+
+  /// `named_only`: ignore unnamed tokens, which some strictness levels can skip
+  fn fixed_string_impl(&self, named_only: bool) -> Cow<str> {
     match &self {
-      PatternNode::Terminal { text, .. } => Cow::Borrowed(text),
+      PatternNode::Terminal { text, is_named, .. } => {
+        if named_only && !*is_named {
+          Cow::Borrowed("")
+        } else {
+          Cow::Borrowed(text)
+        }
+      }
       PatternNode::MetaVar { .. } => Cow::Borrowed(""),
       PatternNode::Internal { children, .. } => {
         children
           .iter()
-          .map(|n| n.fixed_string())
+          .map(|n| n.fixed_string_impl(named_only))
           .fold(Cow::Borrowed(""), |longest, curr| {
             if longest.len() >= curr.len() {
               longest
@@ -156,8 +167,15 @@ impl<L: Language> Pattern<L> {
     kind_utils::is_error_kind(kind)
   }
 
+  /// A string that the text of every matched node must contain.
   pub fn fixed_string(&self) -> Cow<str> {
-    self.node.fixed_string()
+    match self.strictness {
+      // text is not compared at all
+      MatchStrictness::Signature => Cow::Borrowed(""),
+      // unnamed tokens of the pattern can be skipped
+      MatchStrictness::Ast | MatchStrictness::Relaxed => self.node.fixed_string_impl(true),
+      MatchStrictness::Cst | MatchStrictness::Smart => self.node.fixed_string_impl(false),
+    }
   }
 
   /// Get all defined variables in the pattern.
